@@ -748,11 +748,11 @@ func (x g) rule(p pred, preds []pred) string {
 				r := reducers[x.n(0, len(reducers)-1)]
 				parts := make([]string, x.n(1, 3))
 				for j := range parts {
-					parts[j] = x.pick(bound)
+					parts[j] = headVar()
 				}
 				return r.name + "(" + strings.Join(parts, ", ") + ")"
 			}
-			return x.fnApp(1, func(int) string { return x.pick(bound) })
+			return x.fnApp(1, func(int) string { return headVar() })
 		}
 		return headVar()
 	})
